@@ -212,6 +212,49 @@ func par2Cycle(r *Run, o cycleOpts) {
 			r.Probe("foreign-packets-first-in-volume")
 		}
 	}
+	conflicting := false
+	if !o.hostileRecovery && t.Bool(1, 12, "conflicting-single-block") {
+		// a small extra volume file holding one recovery block whose
+		// exponent also exists in a genuine file, with different content
+		// (say, a left-over of an earlier generation of the set): the
+		// inventory of distinct intact blocks is unchanged
+		rec := w.RecoveryPaths()
+		var present []string
+		for _, p := range rec {
+			if _, ok := w.Disk.Get(p); ok {
+				present = append(present, p)
+			}
+		}
+		if len(present) > 0 {
+			src := present[t.Draw(len(present), "which")]
+			b, _ := w.Disk.Get(src)
+			pk, _ := ref.ParsePackets(b)
+			var recp []ref.Packet
+			var creator []byte
+			for _, x := range pk {
+				if x.Type == ref.TypeRecvSlic {
+					recp = append(recp, x)
+				}
+				if x.Type == ref.TypeCreator {
+					creator = b[x.Offset : x.Offset+x.Length]
+				}
+			}
+			if len(recp) > 0 && creator != nil {
+				x := recp[t.Draw(len(recp), "packet")]
+				body := append([]byte(nil), x.Body...)
+				if len(body) > 5 {
+					body[4+t.Draw(len(body)-4, "off")] ^= byte(1 + t.Draw(255, "xor"))
+					nb := append(append([]byte(nil), creator...), ref.MakePacket(x.SetID, x.Type, body)...)
+					name := []string{".0old.par2", ".zold.par2", ".vol00-old.par2"}[t.Draw(3, "name")]
+					w.Disk.Put(strings.TrimSuffix(w.Index, ".par2")+name, nb)
+					conflicting = true
+					r.Logf("conflicting single-block volume %s (same exponent as a genuine block, different content)", w.Base+name)
+					r.Probe("conflicting-single-block-volume")
+				}
+			}
+		}
+	}
+	_ = conflicting
 	hostile := ""
 	if o.hostileRecovery && len(w.Files[0].Data) > 16384+2*w.S && len(w.Files) > 1 && t.Bool(1, 3, "late-failure") {
 		// a Repair that gets some files right and then fails on a later
